@@ -139,26 +139,19 @@ theorem rnto_target_missing {B : Backend} {cfg : Cfg} {w : World} {s : SState} {
 
 /-! ### handler bodies -/
 
-theorem workerB_posix_eq (w : World) (hwf : WF w.fs) (s : SState) (t : Path) (v : Verb) (pl : Bytes)
-    (h3 : restartCreates w.fs s v t = false) :
+theorem workerB_posix_eq (w : World) (hwf : WF w.fs) (s : SState) (t : Path) (v : Verb) (pl : Bytes) :
     workerB Backend.posix w s t v pl = workerB Backend.mem w s t v pl := by
   have hopen0 : Backend.posix.openFile w.fs t 0 = Backend.mem.openFile w.fs t 0 := by
     simp only [Backend.posix, Backend.mem]
-    exact posix_openFile_eq hwf t 0 (by omega)
+    exact posix_openFile_eq hwf t 0
   have hch : Backend.posix.children w.fs t = Backend.mem.children w.fs t := by
     simp only [Backend.posix, Backend.mem]; exact posix_list_eq hwf t
   have hopenW : (v = .stor ∨ v = .appe) →
       Backend.posix.openFile w.fs t (if xferOffset v s ≠ 0 then 3 else (if v = .stor then 1 else 2)) =
       Backend.mem.openFile w.fs t (if xferOffset v s ≠ 0 then 3 else (if v = .stor then 1 else 2)) := by
-    intro hv
+    intro _
     simp only [Backend.posix, Backend.mem]
-    apply posix_openFile_eq hwf
-    rintro ⟨hm, hl, hd⟩
-    by_cases hr : xferOffset v s = 0
-    · simp only [hr, ne_eq, not_true_eq_false, if_false] at hm
-      split at hm <;> omega
-    · have hex : exists_ w.fs t = false := exists_false_iff.mpr hl
-      rcases hv with rfl | rfl <;> simp [restartCreates, hr, hex, hd] at h3
+    exact posix_openFile_eq hwf _ _
   unfold workerB workerBK
   cases s.dataConn with
   | false => rfl
@@ -180,13 +173,9 @@ theorem workerB_posix_eq (w : World) (hwf : WF w.fs) (s : SState) (t : Path) (v 
 
 theorem bodyB_posix_eq (cfg : Cfg) (w : World) (hwf : WF w.fs) (s : SState) (v : Verb) (rest : Str) (arg : PPath)
     (pl : Bytes)
-    (hg : v = .rnto → exists_ w.fs (resolve s arg) = false)
-    (h1 : throughFile w.fs s v (resolve s arg) = false)
-    (h2 : intoItself w.fs s v (resolve s arg) = false)
-    (h3 : restartCreates w.fs s v (resolve s arg) = false)
-    (h4 : samePath s v (resolve s arg) = false) :
+    (hg : v = .rnto → exists_ w.fs (resolve s arg) = false) :
     bodyB Backend.posix cfg w s v rest arg pl = bodyB Backend.mem cfg w s v rest arg pl := by
-  have hw := workerB_posix_eq w hwf s (resolve s arg) v pl h3
+  have hw := workerB_posix_eq w hwf s (resolve s arg) v pl
   have hdir : Backend.posix.isDir w.fs (resolve s arg).dropLast = Backend.mem.isDir w.fs (resolve s arg).dropLast := by
     simp only [Backend.posix, Backend.mem]; exact posix_isDir_eq hwf _
   cases v with
@@ -202,14 +191,7 @@ theorem bodyB_posix_eq (cfg : Cfg) (w : World) (hwf : WF w.fs) (s : SState) (v :
     | none => rfl
     | some src =>
       have hl : lookup w.fs (resolve s arg) = none := exists_false_iff.mp (hg rfl)
-      have hne : src ≠ resolve s arg := by
-        intro heq; simp [samePath, hrf, heq] at h4
-      have h1' : ¬ (exists_ w.fs src = true ∧ isFile w.fs (resolve s arg).dropLast = true) := by
-        rintro ⟨a, b⟩; simp [throughFile, hrf, a, b] at h1
-      have h2' : ¬ (exists_ w.fs src = true ∧ isDir w.fs (resolve s arg).dropLast = true ∧
-          src.isPrefixOf (resolve s arg) = true) := by
-        rintro ⟨a, b, c⟩; simp [intoItself, hrf, a, b, c, hne] at h2
-      have := posix_rename_eq hwf src (resolve s arg) hl hne h1' h2'
+      have := posix_rename_eq hwf src (resolve s arg) hl
       simp only [this]
       rfl
   | list => simp only [bodyB, hw]
@@ -227,18 +209,14 @@ def regionAt (f : SState → Verb → Path → Bool) (s : SState) (ev : Event) :
   | some (v, s0, t) => f s0 v t
   | none => false
 
-theorem runVerbB_posix_eq (cfg : Cfg) (w : World) (hwf : WF w.fs) (s0 : SState) (v : Verb) (rest : Str) (pl : Bytes)
-    (h1 : throughFile w.fs s0 v (resolve s0 (argOf s0 v rest)) = false)
-    (h2 : intoItself w.fs s0 v (resolve s0 (argOf s0 v rest)) = false)
-    (h3 : restartCreates w.fs s0 v (resolve s0 (argOf s0 v rest)) = false)
-    (h4 : samePath s0 v (resolve s0 (argOf s0 v rest)) = false) :
+theorem runVerbB_posix_eq (cfg : Cfg) (w : World) (hwf : WF w.fs) (s0 : SState) (v : Verb) (rest : Str) (pl : Bytes) :
     runVerbB Backend.posix cfg w s0 v rest pl = runVerbB Backend.mem cfg w s0 v rest pl := by
   unfold runVerbB
   rw [runGuardsB_posix cfg w hwf]
   cases hgd : runGuardsB Backend.mem cfg w s0 (argOf s0 v rest) v.guards with
   | pass =>
     simp only
-    apply bodyB_posix_eq cfg w hwf s0 v rest _ pl _ h1 h2 h3 h4
+    apply bodyB_posix_eq cfg w hwf s0 v rest _ pl _
     intro hv
     subst hv
     exact rnto_target_missing hgd
@@ -246,11 +224,7 @@ theorem runVerbB_posix_eq (cfg : Cfg) (w : World) (hwf : WF w.fs) (s0 : SState) 
   | crash => rfl
   | silent => rfl
 
-theorem stepB_posix_eq (cfg : Cfg) (w : World) (hwf : WF w.fs) (s : SState) (ev : Event)
-    (h1 : regionAt (throughFile w.fs) s ev = false)
-    (h2 : regionAt (intoItself w.fs) s ev = false)
-    (h3 : regionAt (restartCreates w.fs) s ev = false)
-    (h4 : regionAt samePath s ev = false) :
+theorem stepB_posix_eq (cfg : Cfg) (w : World) (hwf : WF w.fs) (s : SState) (ev : Event) :
     stepB Backend.posix cfg w s ev = stepB Backend.mem cfg w s ev := by
   have h0 : step0B Backend.posix cfg w s ev = step0B Backend.mem cfg w s ev := by
     cases ev with
@@ -259,12 +233,9 @@ theorem stepB_posix_eq (cfg : Cfg) (w : World) (hwf : WF w.fs) (s : SState) (ev 
     | finish => rfl
     | line raw pl =>
       simp only [step0B, dispatchB]
-      simp only [regionAt, targetOf] at h1 h2 h3 h4
       cases hv : verbOf (parseCommand raw).1 with
       | none => rfl
-      | some v =>
-        rw [hv] at h1 h2 h3 h4
-        exact runVerbB_posix_eq cfg w hwf _ v _ pl h1 h2 h3 h4
+      | some v => exact runVerbB_posix_eq cfg w hwf _ v _ pl
   simp only [stepB, h0]
 
 /-! ### the tree invariant along steps -/
